@@ -354,30 +354,36 @@ def luba_stream(rng, corr, wellformed=True, nparts=None):
     parts = []
     for _ in range(nparts or rng.randrange(1, 9)):
         k = rng.random()
+        piece = []
         if k < 0.55:
             f, tag = luba_valid_frame(rng, wellformed)
             corr.bump("luba:" + tag)
-            parts += f
+            piece = f
         elif k < 0.65:
             f, _ = luba_valid_frame(rng, wellformed)
             i = rng.randrange(3, len(f))
             f[i] ^= rng.randrange(1, 256)
             corr.bump("luba:corrupted")
-            parts += f
+            piece = f
         elif k < 0.72:
             f, _ = luba_valid_frame(rng, wellformed)
             corr.bump("luba:truncated")
-            parts += f[:rng.randrange(1, len(f))]
+            piece = f[:rng.randrange(1, len(f))]
         elif k < 0.82:
             corr.bump("luba:bad-length")
-            parts += [Y, rng.choice([0x31, 0x21, rng.randrange(256)]),
-                      rng.choice([0, 21, 22, 23, 24, 25, 255, rng.randrange(21, 256)])]
+            piece = [Y, rng.choice([0x31, 0x21, rng.randrange(256)]),
+                     rng.choice([0, 21, 22, 23, 24, 25, 255, rng.randrange(21, 256)])]
         elif k < 0.92:
             corr.bump("luba:noise")
-            parts += [rng.choice([Y, 0, 0x31, rng.randrange(256)]) for _ in range(rng.randrange(1, 12))]
+            piece = [rng.choice([Y, 0, 0x31, rng.randrange(256)]) for _ in range(rng.randrange(1, 12))]
         else:
             corr.bump("luba:idle")
-            parts += [0] * rng.randrange(1, 30)
+            piece = [0] * rng.randrange(1, 30)
+        parts += piece
+        # the same bytes again, immediately (a gateway reporting the same thing twice or three times)
+        if rng.random() < 0.2:
+            corr.bump("luba:repeated")
+            parts += piece * rng.randrange(1, 3)
     return parts
 
 
@@ -386,7 +392,7 @@ def sci_stream(rng, corr):
     for _ in range(rng.randrange(1, 10)):
         k = rng.random()
         if k < 0.7:
-            code = rng.choice([0, 1, 2, 3, 3, 3, 8, 8, 7, 4, 5, 6, rng.randrange(9, 16)])
+            code = rng.choice([0, 1, 2, 3, 3, 3, 8, 8, 7, 7, 4, 5, 6, rng.randrange(9, 16)])
             status = (rng.randrange(16) << 4) | code
             if code == 3 and rng.random() < 0.7:
                 d = rng.choice(POOL16)
@@ -399,16 +405,136 @@ def sci_stream(rng, corr):
             else:
                 f = sci_frame(status, rng.randrange(256), rng.randrange(256), rng.randrange(256))
             corr.bump("sci:code%d" % code)
-            parts += f
+            piece = f
         elif k < 0.82:
             f = sci_frame(rng.randrange(256), rng.randrange(256), rng.randrange(256), rng.randrange(256))
             f[rng.randrange(5)] ^= rng.randrange(1, 256)
             corr.bump("sci:corrupted")
-            parts += f
+            piece = f
         else:
             corr.bump("sci:noise")
-            parts += [rng.randrange(256) for _ in range(rng.randrange(1, 9))]
+            piece = [rng.randrange(256) for _ in range(rng.randrange(1, 9))]
+        parts += piece
+        # the same bytes again, immediately (a persistent fault is reported over and over)
+        if rng.random() < 0.2:
+            corr.bump("sci:repeated")
+            parts += piece * rng.randrange(1, 3)
     return parts
+
+
+# ---- repeated frames: a receiver is a function of the byte stream, it has no memory of delivered items ----
+
+def luba_catalogue(rng):
+    """one or more checksum-valid, well-formed frames of every kind the receiver distinguishes"""
+    cat = []
+    for d in (0xC106, 0xFE80, 0xA300, 0x01E3):
+        cat.append(("event-sent16", luba_frame(0x31, [0, 0, 0, 0x10, rng.randrange(256), d >> 8, d & 255])))
+        cat.append(("event-recv16", luba_frame(0x31, [0, 0, 0, 0x90, d >> 8, d & 255])))
+    cat.append(("event-sent-none", luba_frame(0x31, [0, 0, 0, 0x00, 9])))
+    cat.append(("event-recv8", luba_frame(0x31, [0, 0, 0, 0x88, rng.randrange(256)])))
+    cat.append(("event-recv24", luba_frame(0x31, [0, 0, 0, 0x98, 0xC1, 0x00, 0x00])))
+    cat.append(("event-recv24", luba_frame(0x31, [0, 0, 0, 0x98, 0x01, 0xFE, 0x30])))
+    cat.append(("event-recv-err", luba_frame(0x31, [0, 0, 0, 0x80 | 62, 0])))
+    cat.append(("event-other1", luba_frame(0x31, [0, 0, 0, 0x40 | 5, 1, 2])))
+    cat.append(("event-other3", luba_frame(0x31, [0, 0, 0, 0xC0 | 1])))
+    cat.append(("txrsp1", luba_frame(0x33, [rng.randrange(256)])))
+    cat.append(("txrsp2", luba_frame(0x33, [rng.randrange(256), rng.randrange(256)])))
+    cat.append(("devinfo", luba_frame(0x21, [rng.randrange(256) for _ in range(20)])))
+    cat.append(("settings", luba_frame(0x2B, [1, 0x12, 0])))
+    cat.append(("known-unhandled", luba_frame(0x2D, [1, 2, 3])))
+    cat.append(("unknown-type", luba_frame(0x77, [1, 2])))
+    for _ in range(12):
+        f, tag = luba_valid_frame(rng, True)
+        cat.append((tag, f))
+    return cat
+
+
+def luba_dropped(rng):
+    """frames the receiver must drop without any lasting effect"""
+    bad = luba_frame(0x31, [0, 0, 0, 0x88, 0x33])
+    bad[-1] ^= 0x5A
+    return [bad, luba_frame(0x77, [1, 2, 3]), [Y, 0x31, 0], [Y, 0x31, 21], [0] * 5]
+
+
+def sci_catalogue(rng):
+    cat = []
+    for code in range(16):
+        for ident in (0, 3, 15):
+            status = (ident << 4) | code
+            if code == 7:
+                for lo in (0, 1, 2, 3, 4, 5, 6, 255):
+                    cat.append(("code7:%d" % lo, sci_frame(status, 0, 0, lo)))
+                cat.append(("code7:2", sci_frame(status, rng.randrange(256), rng.randrange(256), 2)))
+            elif code == 3:
+                for d in (0xC106, 0xFE80, 0xA300, 0x01E3):
+                    cat.append(("code3", sci_frame(status, rng.randrange(256), d >> 8, d & 255)))
+            elif code == 8:
+                for d in (0xC10000, 0x01FE30):
+                    cat.append(("code8", sci_frame(status, d >> 16, (d >> 8) & 255, d & 255)))
+            else:
+                cat.append(("code%d" % code, sci_frame(status, rng.randrange(256), rng.randrange(256), 0x55)))
+    return cat
+
+
+def sci_dropped(rng):
+    bad = sci_frame(0x33, 0, 0xFF, 0x06)
+    bad[4] ^= 0x5A
+    return [bad, sci_frame(0x39, 1, 2, 3), sci_frame(0x3F, 0, 0, 2), sci_frame(0x37, 0, 0, 0), sci_frame(0x37, 0, 0, 9),
+            sci_frame(0x34, 0, 0, 2)]
+
+
+def repeat_suite(ctx, corr, ls):
+    """every frame kind immediately repeated 2-3 times, identical error reports back to back and separated only by
+    dropped frames; the comparison with the reference deframer (which has no memory) is the oracle, plus the direct
+    statement: k copies of a frame that delivers `items` on its own (and does not change the device-type memory)
+    deliver k * items."""
+    rng = ctx.rng
+
+    def both(kind, suite, stream):
+        r = None
+        for ch in ([list(stream)], [[b] for b in stream]):
+            impl, spec_items = compare(ctx, corr, ls, kind, suite, ch)
+            r = impl["items"]
+        return r
+
+    def direct(kind, tag, f, k, got):
+        """k copies vs k times the items of one copy - checked on the real code alone (no model, no reference)"""
+        one = Real(kind)
+        one.feed([f])
+        single = canon_real(kind, one.log)
+        st0 = Real(kind).state()
+        if one.errs or one.state() != st0:      # device-type memory changed: copies may legitimately differ
+            return
+        if got != single * k:
+            corr.violate("%s:repeat" % kind, {"proto": kind, "chunks": fmt_chunks([f * k])}, single * k, got,
+                         "a frame received %d times in a row is not delivered %d times (%s)" % (k, k, tag))
+
+    for kind, cat, dropped in (("luba", luba_catalogue(rng), luba_dropped(rng)),
+                               ("sci", sci_catalogue(rng), sci_dropped(rng))):
+        for tag, f in cat:
+            corr.bump("%s:repeat:%s" % (kind, tag.split(":")[0]))
+            for k in (2, 3):
+                got = both(kind, kind + "_repeat", f * k)
+                direct(kind, tag, f, k, got)
+            # the same frame again after frames that are dropped (bad checksum, unknown type/status, bad length)
+            d = rng.choice(dropped)
+            both(kind, kind + "_repeat", f + d + f)
+            d2 = rng.choice(dropped)
+            both(kind, kind + "_repeat", f + d + d2 + f + f)
+    # SCI error reports: all pairs of error codes, back to back / separated by every kind of dropped frame / by
+    # a delivered frame
+    err = lambda c, ident=3: sci_frame((ident << 4) | 7, 0, 0, c)  # noqa
+    for a in (1, 2, 3, 4, 5):
+        for b in (1, 2, 3, 4, 5):
+            both("sci", "sci_repeat", err(a) + err(b) + err(a))
+            both("sci", "sci_repeat", err(a) + err(b) + err(b) + err(a) + err(a))
+        for d in sci_dropped(rng):
+            both("sci", "sci_repeat", err(a) + d + err(a))
+            both("sci", "sci_repeat", err(a) + d + d + err(a) + d + err(a))
+        both("sci", "sci_repeat", err(a) + sci_frame(0x30, 0, 0, 0) + err(a))
+        both("sci", "sci_repeat", err(a) * 3 + sci_frame(0x32, 0, 0, 0x77))
+        both("sci", "sci_repeat", err(a, 1) + err(a, 2) + err(a, 1))
+    corr.exhaustive["SCI error code pairs 1..5 x 1..5 back to back"] = True
 
 
 def chunkings(rng, stream):
@@ -477,7 +603,9 @@ def correspond(ctx, corr):
         "EXHAUSTIVE every LUBA length byte 0..255 at the length position x 3 types x 2 continuations, every SCI status "
         "byte 0..255 x valid/invalid checksum, every EnableDeviceType operand x following frame; SAMPLED "
         "grammar-guided streams (valid frames of every type, corrupted checksums, truncations, bad lengths, noise, idle) "
-        "x 3 chunkings each (whole, byte-wise, random); resync streams prefix + 24 idle bytes + frame; "
+        "x 3 chunkings each (whole, byte-wise, random), pieces repeated 2-3 times with probability 0.2; every frame kind "
+        "(LUBA and SCI catalogue) immediately repeated 2 and 3 times and repeated after dropped frames, all pairs of SCI "
+        "error codes back to back; resync streams prefix + 24 idle bytes + frame; "
         "non-trivial = distinct (protocol, item kind, decoded class / exception class)")
     try:
         # ---- EnableDeviceType recognition (model: 16-bit frame C1 xx), exhaustive over the operand
@@ -526,6 +654,9 @@ def correspond(ctx, corr):
                 stream = f + sci_frame(0x03, 0, 0x01, 0xE3) + g + sci_frame(0x02, 0, 0, 0x55)
                 compare(ctx, corr, ls, "sci", "sci_status_byte", [stream], expect_last=["raw:85"])
         corr.exhaustive["SCI status byte 0..255"] = True
+
+        # ---- repeated frames (no memory of delivered items)
+        repeat_suite(ctx, corr, ls)
 
         # ---- grammar-guided streams x chunkings
         n = 2500 if ctx.thorough else 450
